@@ -18,6 +18,7 @@ class Instance:
     gpu_tasks: list[str] = field(default_factory=list)
     kw: dict[tuple[str, str, str], str | int] | None = None   # optional: how each edge binds (harness only)
     trace_only: bool = False                   # too large to model-check in the quick tier: recorded executions only
+    dup_edges: list = field(default_factory=list)   # (src task, output, sink): the sink reads that dataset through a SECOND parameter too
 
     @property
     def tasks(self) -> list[str]:
@@ -95,6 +96,8 @@ def shapes() -> dict[str, tuple[dict, list]]:
     twelve = sorted(str(i) for i in range(12))        # key-sorted: "0", "1", "10", "11", "2", ...
     S["manyout"] = ({"g": twelve, "u": one, "v": one, "w": one}, [("g", "9", "u"), ("g", "11", "u"), ("g", "0", "v"), ("g", "10", "w")])
     S["manyin"] = ({"s": one, "g": twelve, "m": one, "u": one}, [("s", "0", "g"), ("s", "0", "m"), ("g", "9", "u")])
+    S["gpumix"] = ({"g": one, "c1": one, "c2": one, "k": one}, [("g", "0", "k"), ("c1", "0", "k"), ("c2", "0", "k")])
+    S["fanout4"] = ({"s": one, "m1": one, "m2": one, "m3": one, "m4": one}, [("s", "0", "m1"), ("s", "0", "m2"), ("s", "0", "m3"), ("s", "0", "m4")])
     S["multiout3"] = ({"g": ["0", "1", "2"], "u": one, "v": one}, [("g", "0", "u"), ("g", "2", "u"), ("g", "1", "v")])
     S["sixtasks"] = ({"a": one, "b": one, "c": one, "d": one, "p": one, "q": one},
                      [("a", "0", "b"), ("a", "0", "c"), ("b", "0", "d"), ("c", "0", "d"), ("p", "0", "q")])
@@ -132,16 +135,24 @@ def quick_instances() -> list[Instance]:
     add("multiout_join", 2, 1, [("g", "0"), ("u", "0")], "mid_sink")
     add("fanin", 2, 1, [("k", "0")], "gpu", gpu_workers=["h1.w0"], gpu_tasks=["k"])
     add("twocomp", 2, 1, [("b", "0"), ("p", "0")], "gpu", gpu_workers=["h1.w0"], gpu_tasks=["p"])
+    # a GPU source next to more CPU sources than CPU-only workers (the GPU worker must not be offered twice in one round)
+    add("gpumix", 1, 2, [("k", "0")], "gpu", gpu_workers=["h0.w1"], gpu_tasks=["g"])
+    # a task that reads one upstream dataset through two parameters
+    add("chain2", 1, 1, [("b", "0")], "dup", dup_edges=[("a", "0", "b")])
+    I.append(Instance("diamond_2x1_dup", S["diamond"][0], S["diamond"][1], cluster(2, 1), [("k", "0")], dup_edges=[("s", "0", "m1"), ("m2", "0", "k")]))
     # larger shapes and clusters: recorded executions (and every delivery order) only
     for shape, nh, nw, ext, tag in [("diamond", 2, 2, [("s", "0"), ("k", "0")], "src_sink"), ("fanout", 2, 2, [("m1", "0"), ("m2", "0")], "sinks"),
                                     ("ladder", 2, 1, [("a", "0"), ("d", "0")], "src_sink"), ("vee", 3, 1, [("k", "0")], "sink"),
                                     ("threecomp", 3, 1, [("b", "0"), ("q", "0")], "two"), ("multiout3", 2, 1, [("g", "1"), ("u", "0")], "mid_sink"),
                                     ("sixtasks", 2, 2, [("a", "0"), ("d", "0"), ("q", "0")], "src_sinks"),
+                                    ("fanout4", 2, 2, [("m1", "0"), ("m2", "0"), ("m3", "0"), ("m4", "0")], "sinks"),
+                                    ("gpumix", 2, 2, [("k", "0")], "gpu"),
                                     ("manyout", 2, 1, [("u", "0"), ("v", "0"), ("w", "0"), ("g", "11")], "sinks_mid"),
                                     ("manyout", 1, 2, [("u", "0"), ("v", "0"), ("w", "0")], "sinks"),
                                     ("manyin", 2, 1, [("u", "0"), ("m", "0")], "sinks"), ("manyin", 1, 2, [("u", "0"), ("m", "0")], "sinks")]:
         outs, edges = S[shape]
-        I.append(Instance(f"{shape}_{nh}x{nw}_{tag}", outs, edges, cluster(nh, nw), ext, trace_only=True))
+        extra = {"gpu_workers": ["h1.w1"], "gpu_tasks": ["g"]} if shape == "gpumix" else {}
+        I.append(Instance(f"{shape}_{nh}x{nw}_{tag}", outs, edges, cluster(nh, nw), ext, trace_only=True, **extra))
     return I
 
 
@@ -150,7 +161,7 @@ def thorough_instances() -> list[Instance]:
     I = list(quick_instances())
     seen = {i.name for i in I}
     for shape, (outs, edges) in S.items():
-        if shape in ("empty", "manyout", "manyin", "sixtasks"):
+        if shape in ("empty", "manyout", "manyin", "sixtasks", "gpumix", "fanout4"):
             continue
         alld = [(t, o) for t in outs for o in outs[t]]
         snk = sinks(outs, edges)
@@ -168,7 +179,7 @@ def thorough_instances() -> list[Instance]:
                     continue
                 seen.add(name)
                 I.append(Instance(name, outs, edges, cluster(nh, nw), ext))
-    I += [i for i in quick_instances() if i.trace_only and i.name not in seen]
+    I += [i for i in quick_instances() if (i.trace_only or i.dup_edges or i.gpu_tasks) and i.name not in seen]
     # GPU variants
     for shape in ["diamond", "fanout", "threecomp"]:
         outs, edges = S[shape]
